@@ -34,6 +34,7 @@ import (
 	"github.com/distribution/reference"
 	godigest "github.com/opencontainers/go-digest"
 	"golang.org/x/exp/maps"
+	"golang.org/x/exp/slices"
 	"golang.org/x/sync/errgroup"
 	"gopkg.in/yaml.v3"
 )
@@ -362,7 +363,8 @@ func (p *Project) WithProfiles(profiles []string) (*Project, error) {
 	}
 	newProject.Services = enabled
 	newProject.DisabledServices = disabled
-	newProject.Profiles = profiles
+	// keep a copy: the caller's slice (possibly the receiver's own Profiles) must not be shared with the new project
+	newProject.Profiles = slices.Clone(profiles)
 	return newProject, nil
 }
 
